@@ -55,7 +55,15 @@ def run_case(case):
     lnames = [ls['name'] for ls in spec['layers']]
     plan = {}
     what = 'test'
-    if rng.random() < 0.12:
+    r0 = rng.random()
+    if r0 < 0.12:
+        # a class that is run as a unit and whose class fixture raises: an
+        # error recorded by a test entry outside any startTest / stopTest
+        what = 'unit'
+        gen.add_unit_nodes(rng, spec, n=(1, 1), fixtures=[
+            {'setUpClass': 'raise:ValueError'},
+            {'tearDownClass': 'raise:KeyError'}])
+    elif r0 < 0.24:
         what = 'layer'
         ln = rng.choice(lnames)
         plan = {'layers': {ln: {'setUp': 'raise:' + rng.choice(
@@ -137,6 +145,11 @@ def run_case(case):
                 break
             if e['k'] == 'layer.setUp.exit' and not e.get('ok'):
                 first, bad_tid = i, None
+                break
+            if e['k'].startswith('class.') and \
+                    str(e.get('beh') or '').startswith('raise'):
+                first, bad_tid = i, None
+                C('class_fixture_stop_points')
                 break
         if first is None:
             continue
